@@ -144,7 +144,9 @@ c.requires('nested-closed', _nested_closed)
 c.requires('sizes-are-the-sums-over-the-member-sets', _sum_pre)
 c.requires('format-is-none-or-a-string', lambda c: Or(c.a.id_format == NONE, L.is_str(c.a.id_format)))
 c.modifies('_sched_id', '$idnum', '_s_mark', '$ycount', '$ypos')
-c.decreases = lambda c: 2 * height(c.a.self)
+# ranks of the four mutually recursive numbering/counting functions at a scheduler s:
+#   _total_length 4h(s) < _job_count 4h(s)+1 < _set_sched_ids 4h(s)+2 < Scheduler._set_sched_id 4h(s)+3
+c.decreases = lambda c: 4 * height(c.a.self) + 2
 c.requires('tree-axioms', lambda c: And(tree_axioms()))
 c.requires('size-definitions', lambda c: And(size_axioms()))
 
@@ -236,7 +238,7 @@ c.requires('nested-closed', _nested_closed)
 c.requires('sizes-are-the-sums-over-the-member-sets', _sum_pre)
 c.requires('self-is-a-job', lambda c: And(isa['Scheduler'](c.a.self), c.pre.alive(c.a.self)))
 c.modifies('_sched_id', '$idnum', '_s_mark', '$ycount', '$ypos')
-c.decreases = lambda c: 2 * height(c.a.self) + 1
+c.decreases = lambda c: 4 * height(c.a.self) + 3
 c.requires('tree-axioms', lambda c: And(tree_axioms()))
 c.requires('size-definitions', lambda c: And(size_axioms()))
 c.ensures('subtree-numbered', lambda c: member_numbered(c.cur, c.a.self, c.a.start, c.result))
@@ -244,10 +246,33 @@ c.ensures('frame', lambda c: ids_frame(c.pre, c.cur, lambda o: sub(o, c.a.self))
 c.ensures('frame[_s_mark]', lambda c: unchanged_field(c.pre, c.cur, '_s_mark', lambda o: under(o, c.a.self)))
 c.raises('Exception', 'only-when-cyclic', lambda c: z3.BoolVal(True))
 
-# ---------------------------------------------------------------- PureScheduler._total_length (assumed: cosmetic)
-c = contract('PureScheduler._total_length', None, kind='env').param('self').returns('int')
-c.assumed = ['ASSUMED-CONTRACT PureScheduler._total_length: returns an integer and writes nothing (only used to choose '
-             'the zero-padding width of the ids; uniqueness of the numbers does not depend on it)']
+# ---------------------------------------------------------------- PureScheduler._total_length / Scheduler._job_count
+# _total_length() = tsum(self): the number of nodes strictly below self; Scheduler._job_count() = size(self).
+# `return sum(job._job_count() for job in self.jobs)` is verified in its mechanically desugared form
+# ($sum = 0; for job in self.jobs: $sum = $sum + job._job_count(); return $sum   -- pyvc/extract._desugar_sum).
+def _count_tree_pre(c):
+    return wf_tree(c.pre, c.a.self)
+
+
+c = contract('PureScheduler._total_length', F_PS).param('self').returns('int')
+c.for_props('C20')
+c.requires('tree', _count_tree_pre)
+c.requires('sizes-are-the-sums-over-the-member-sets', _sum_pre)
+c.requires('tree-axioms', lambda c: And(tree_axioms()))
+c.requires('size-definitions', lambda c: And(size_axioms()))
+c.decreases = lambda c: 4 * height(c.a.self)
+c.ensures('number-of-nodes-below', lambda c: c.result == tsum(c.a.self))
+c.loop(0, inv=[('partial-sum', lambda c: c.var('$sum') == psum(c.visited))], hints=_ids_hints)
+
+c = contract('Scheduler._job_count', F_S).param('self').returns('int')
+c.for_props('C20')
+c.requires('tree', _count_tree_pre)
+c.requires('sizes-are-the-sums-over-the-member-sets', _sum_pre)
+c.requires('self-is-a-scheduler', lambda c: isa['Scheduler'](c.a.self))
+c.requires('tree-axioms', lambda c: And(tree_axioms()))
+c.requires('size-definitions', lambda c: And(size_axioms()))
+c.decreases = lambda c: 4 * height(c.a.self) + 1
+c.ensures('subtree-size', lambda c: c.result == size(c.a.self))
 
 # ---------------------------------------------------------------- math.log (environment; cosmetic use only)
 c = contract('math.log', None, kind='env').param('x', 'any').param('base', 'any', None).returns('real')
